@@ -63,10 +63,10 @@ Inductive rpc :=
 | R0 | R1 | R2 | R3 | R4 | R5 | R6 | R7 (ok : bool) | R8 | RH | RHL | RErr | REnd (ok : bool) | RDone.
 
 (** transmitter program counter: S1..S4 = setCyclicTransmission, SEL = select,
-    X1..X9 = transmit closure (XH/XHL inside the hook), TFail = about to return an error *)
+    X1..X9 = transmit closure (XHU/XHL inside the hook), TFail = about to return an error *)
 Inductive tpc :=
 | T0 | S1 | S2 | S3 | S4 | T1 | SEL
-| X1 | X2 | X3 | X4 | X5 | XH | XHL | X6 | X7 | X8 | X9 | TFail | TDone.
+| X1 | X2 | X3 | X4 | X5 | XHU | XHL | X6 | X7 | X8 | X9 | TFail | TDone.
 
 Record tx := mkTx {
   t_pc : tpc;
@@ -148,7 +148,7 @@ Definition locked_thread (h : thread) : bool :=
 
 (** inside the transmit closure: an accepted request or taken tick is being served *)
 Definition in_x (p : tpc) : bool :=
-  match p with X1 | X2 | X3 | X4 | X5 | XH | XHL | X6 | X7 | X8 | X9 => true | _ => false end.
+  match p with X1 | X2 | X3 | X4 | X5 | XHU | XHL | X6 | X7 | X8 | X9 => true | _ => false end.
 
 (* ---------------------------------------------------------------- local steps *)
 
@@ -161,7 +161,7 @@ Definition lock_thread (h : thread) : option thread :=
       | S1 => Some (TTx (with_pc x S2))
       | X1 => Some (TTx (with_pc x X2))
       | X6 => Some (TTx (with_pc x X7))
-      | XH => Some (TTx (with_pc x XHL))
+      | XHU => Some (TTx (with_pc x XHL))
       | _ => None
       end
   | TApp a =>
@@ -181,7 +181,7 @@ Definition unlock_thread (h : thread) : option thread :=
       | S3 => Some (TTx (with_pc x S4))
       | X4 => Some (TTx (with_pc x X5))
       | X8 => Some (TTx (with_pc x X9))
-      | XHL => Some (TTx (with_pc x XH))
+      | XHL => Some (TTx (with_pc x XHU))
       | _ => None
       end
   | TApp a =>
@@ -215,7 +215,7 @@ Definition access_thread (h : thread) (w : what) : option thread :=
 Definition hookcall_thread (h : thread) : option thread :=
   match h with
   | TRx R8 => Some (TRx RH)
-  | TTx x => match t_pc x with X5 => Some (TTx (with_pc x XH)) | _ => None end
+  | TTx x => match t_pc x with X5 => Some (TTx (with_pc x XHU)) | _ => None end
   | _ => None
   end.
 
@@ -224,7 +224,7 @@ Definition hookret_thread (h : thread) (ok : bool) : option thread :=
   | TRx RH => Some (TRx (if ok then R0 else REnd false))
   | TTx x =>
       match t_pc x with
-      | XH => Some (TTx (if ok then with_pc x X6
+      | XHU => Some (TTx (if ok then with_pc x X6
                          else with_pc (with_counts x (t_acc x) (t_tk x) (t_txd x) (S (t_ab x))) TFail))
       | _ => None
       end
